@@ -154,12 +154,16 @@ def ask_model(chk, X, p, calls, fresh):
     splits = [c for c in calls if c["gain"] > 0]
     terminal = len(calls) > 0 and not (calls[-1]["gain"] > 0)
     sp_tokens = enc_list(splits, lambda c: f"{c['leaf']} {c['feature']} {rk.enc(c['feature'], c['threshold']) if 0 <= c['feature'] < d else 0} {c['left']} {c['right']}")
-    line = (f"c09.fit {p['max_clusters']} {enc_opt(p['max_depth'])} {p['min_samples_split']} {p['min_samples_leaf']} {enc_opt(p['max_leaves'])} "
+    line = (f"{p['max_clusters']} {enc_opt(p['max_depth'])} {p['min_samples_split']} {p['min_samples_leaf']} {enc_opt(p['max_leaves'])} "
             f"{d} {enc_rows(rk.rows(X))} {sp_tokens} {1 if terminal else 0} {enc_rows(rk.rows(fresh))}")
-    t = chk.ask(line)
+    # the proved model (golden rules) is what the implementation is compared with; the model under the rules
+    # regenerated from the current source must say the same thing, token for token
+    t = chk.ask("c09.fit_golden " + line)
+    regen = chk.ask("c09.fit " + line)
+    regen_same = (regen.t == t.t)
     status = t.int()
     if status == 3:
-        return {"status": 3}
+        return {"status": 3, "regen_same": regen_same}
     res = {"status": status, "bad": t.int(), "n_leaves": t.int(), "n_clusters": t.int(), "queue": t.list(t.int)}
     nn = t.int()
     nodes = []
@@ -178,6 +182,7 @@ def ask_model(chk, X, p, calls, fresh):
     res["depth"] = t.int()
     res["trace"] = t.list(lambda: (t.int(), t.int(), t.list(t.int)))
     res["ranks"] = rk
+    res["regen_same"] = regen_same
     return res
 
 
@@ -190,6 +195,9 @@ def compare_l2(chk, est, X, p, Kmat, calls, fresh, replay):
     """Correspondence: model loop replayed with the recorded splits vs the fitted estimator."""
     ok = True
     m = ask_model(chk, X, p, calls, fresh)
+    if not m["regen_same"]:
+        chk.fail("fit:regenerated-rules-diverge", "the model instantiated with the rules regenerated from the current kauri.py (Gen/KauriFitRules.v) "
+                 "behaves differently from the model with the golden rules the theorems were proved for, on this fit", replay)
     if m["status"] != 0:
         chk.fail(f"fit:replay-status-{m['status']}", STATUS[m["status"]] + (f" (split #{m.get('bad')})" if m["status"] == 2 else ""), replay)
         return False
